@@ -244,7 +244,8 @@ def tasks(tier, seed):
   for N in ((0, 1, 3, 4) if not big else (0, 1, 3, 5)):
     T.append(("h_tables", {"N": N}))
   for N, p in ((2, 1), (3, 1), (3, 2), (4, 2), (4, 1)) + (((5, 2), (4, 3), (5, 3)) if big else ()):
-    T.append(("h_kautocor", {"N": N, "p": p}, {"task_s": 1200, "path_s": 400} if p >= 3 or N >= 5 else {}))
+    # p >= 3 or N >= 5: degree blow-up (queries hit the 120 s cap on a loaded machine) - attempted, reported, not claimed
+    T.append(("h_kautocor", {"N": N, "p": p}, {"optional": True, "task_s": 900, "path_s": 400} if p >= 3 or N >= 5 else {}))
   for N, p in ((2, 1), (3, 1), (4, 1), (3, 2), (4, 2)) + (((5, 2), (5, 3)) if big else ()):
     T.append(("h_kcovar", {"N": N, "p": p}, {"optional": N >= 5, "task_s": 600} if N >= 5 else {}))
   return T
